@@ -74,6 +74,9 @@ def enumerated(tier, seed):
     n = 20000 if tier == "quick" else 100000
     for i, (k, w, s) in enumerate(dists):
         out.append({"stat": True, "keys": k, "weights": w, "sizes": s, "N": n, "seed": seed * 100 + i})
+    # more than a million vertices (every block size / chunked pass up to 2**20 is crossed); the totals N of both
+    # columns leave remainders modulo 2 and 3
+    out.append({"keys": [[1, 1]], "weights": [1.0], "sizes": [2, 3], "N": 2 ** 20 + 3, "seed": seed * 100 + 50, "many": True})
     return out
 
 
@@ -155,7 +158,7 @@ def verify(ld, jdd, sizes, N, seed, stat=False, case=None, tag="", flags=None):
     T = len(sizes)
     case = case or {"weights": list(jdd.values()), "keys": [list(k) for k in keys], "sizes": sizes, "seed": seed}
     if flags:
-        case = {**case, "huge": flags.get("huge"), "key_dtype": flags.get("key_dtype", "int")}
+        case = {**case, "huge": flags.get("huge"), "many": flags.get("many"), "key_dtype": flags.get("key_dtype", "int")}
     with rng.seeded(seed), rng.spy_choices() as calls:
         out = call(tag + "sample", ld.sample_jds_from_jdd, N)
     if stat:
@@ -210,6 +213,9 @@ def verify(ld, jdd, sizes, N, seed, stat=False, case=None, tag="", flags=None):
         if not exists_decomposition(out, keys, sizes):
             raise Violation(tag + "not-minimal-perturbation", f"{out} is not N draws of {keys} plus < size added stubs per topology (sizes {sizes})")
         nt = any(e not in set(keys) for e in out)
+    if case.get("many"):
+        classes.add("million_vertices")
+        return {"nontrivial": bool(nt), "classes": sorted(classes)}
     if case.get("huge"):
         classes.add("huge_degrees")
         if nt:
